@@ -26,7 +26,7 @@ for pid in ids:
         "evidence_file": "/verif/evidence/%s.json" % pid,
         "replay_cmd_template": "./check %s --replay {path}" % pid,
         "engine": "coq+diff",
-        "level_claimed": {"category": c["level"], "text": c["text"], "design_ref": "DESIGN.md section 6, %s" % pid},
+        "level_claimed": {"category": c["level"], "text": c["text"], "design_ref": "DESIGN.md section 13 (as built) and section 6 (plan), %s" % pid},
         "level_note": c["note"],
         "technique": c.get("technique", "machine-checked proof in Coq 8.16.1 over an executable Gallina model; model tied to /repo by translator-regenerated tables and/or differential correspondence (extracted OCaml model vs implementation)"),
     })
